@@ -5,9 +5,10 @@
 (* S0 (documented): full buy when the trend CCI has stayed above the zero line for s1_lag bars, full sell when it     *)
 (* has stayed below for s1_lag bars.  The bar count is kept as the code keeps it: set to +-1 on the bar the trend     *)
 (* crosses 0, otherwise advanced by sign(trend).                                                                      *)
-(* DEVIATION OF THE CODE: it multiplies [|count| = s1_lag] by the CROSSING of that very bar instead of the side the   *)
-(* count is on, so it can fire only on a crossing bar, where |count| = 1: never for s1_lag > 1 (default 6).           *)
-(* WoodiesCCI_SigAsCoded is that behaviour (accepted by all traces); WoodiesCCI_Sig is the documented rule.           *)
+(* DEVIATION OF THE ORIGINAL CODE: it multiplied [|count| = s1_lag] by the CROSSING of that very bar instead of the   *)
+(* side the count is on, so it could fire only on a crossing bar, where |count| = 1: never for s1_lag > 1 (default    *)
+(* 6).  WoodiesCCI_SigAsCoded is that behaviour (it accepts all traces of the original code); WoodiesCCI_Sig is the   *)
+(* documented rule (it rejects the original code on the first bar the trend CCI completes s1_lag bars on one side).   *)
 \* SPEC: values signals
 EXTENDS IndLib
 
